@@ -26,7 +26,7 @@ import kdf, dumpgen
 THEOREMS = ["Kdf.Props.C15." + t for t in (
     "ledger_sound", "ledger_prefix", "runs_frame",
     "fcacheGet_balanced", "fcachePread_balanced", "fcacheGetChunk_balanced", "fcachePutChunk_balanced",
-    "chunk_roundtrip", "diskdumpReadPage_balanced", "cacheGetPage_balanced", "readLocked_balanced",
+    "chunk_roundtrip", "diskdumpReadPage_balanced", "cacheGetPage_balanced", "diskdumpGetPage_balanced", "readLocked_balanced",
     "addrxlatGetPage_balanced", "addrxlatPage_roundtrip", "session_balanced")]
 
 WRAP = ("-Wl,--wrap=malloc,--wrap=calloc,--wrap=realloc,--wrap=strdup,--wrap=free," +
@@ -119,10 +119,10 @@ class Dump:
                 out.append("M pg %d - 0 0 0 0" % p)
         return out
 
-    def cfg_line(self, sizes):
-        return ("M cfg pgsz=%d mmapsz=%d filesz=%d fce=%d pio=%d embed=%d ps=%d maxpfn=%d zeroexcl=0 lzo=%d snappy=%d zstd=%d"
+    def cfg_line(self, sizes, zeroexcl=0):
+        return ("M cfg pgsz=%d mmapsz=%d filesz=%d fce=%d pio=%d embed=%d ps=%d maxpfn=%d zeroexcl=%d lzo=%d snappy=%d zstd=%d"
                 % (sizes["pgsz"], sizes["pgsz"] << 10, self.size, sizes["fce"], sizes["pio"], sizes["embed"], self.ps,
-                   self.maxpfn, sizes["lzo"], sizes["snappy"], sizes["zstd"]))
+                   self.maxpfn, zeroexcl, sizes["lzo"], sizes["snappy"], sizes["zstd"]))
 
 
 def vmcoreinfo_text(rng, bad=False, pagesize=True):
@@ -156,7 +156,7 @@ def trace_scenario(R, D, fault=None, plan=None):
     rng = R.rng
     if plan is None:
         plan = dict(pol=rng.choice([0, 0, 0, 1, 2, 2, 3]), cache=rng.choice([None, None, 2, 3]),
-                    warm=[], calls=[], nomap=rng.random() < 0.2)
+                    warm=[], calls=[], nomap=rng.random() < 0.2, zeroexcl=int(rng.random() < 0.3))
         ps = D.ps
         top = D.maxpfn + 1
         for _ in range(rng.choice([0, 1, 3, 6, 10])):
@@ -184,6 +184,8 @@ def trace_scenario(R, D, fault=None, plan=None):
     S.add("setnum 0 file.mmap_policy %d" % plan["pol"])
     if plan["cache"]:
         S.add("setnum 0 cache.size %d" % plan["cache"])
+    if plan.get("zeroexcl"):
+        S.add("setnum 0 file.zero_excluded 1")      # excluded frames read as zeroes, through the page cache
     need_ax = any(c[0] == "getpage" for c in plan["calls"])
     if need_ax:
         S.add("setnum 0 addrxlat.default.virt_bits 48")
@@ -659,7 +661,7 @@ def run(R):
             check_in.append("M checkreset")
             desync = False
             if S.kind == "trace" and with_model:
-                model_in.append(S.dump.cfg_line(R.sizes)); model_in.extend(S.dump.pg_lines())
+                model_in.append(S.dump.cfg_line(R.sizes, S.plan.get("zeroexcl", 0))); model_in.extend(S.dump.pg_lines())
             for i, (o, st, t) in enumerate(per):
                 if st in (None, "skip"):
                     continue
